@@ -249,6 +249,64 @@ static void inspect_token(const char *tok, const vh_key_t *k, int *halg, int *th
 	}
 }
 
+/* ---- setkey histories (routes 5..7) ---------------------------------------------
+ * 5: the cell's setkey, then a refused setkey (alg without key)
+ * 6: the cell's setkey, then a refused setkey (alg mismatch / key without alg and alg none)
+ * 7: an admitted setkey with another key (HS512 + oct:64), then the cell's setkey
+ * The configuration in force is the one of the last admitted call; a refused call must leave no trace. */
+static int other_ki = -1;
+static int do_setkey(void *obj, int builder, jwt_alg_t alg, const jwk_item_t *item)
+{
+	return builder ? jwt_builder_setkey(obj, alg, item) : jwt_checker_setkey(obj, alg, item);
+}
+static void log_setkey(int builder, long idx, int prov, int route, int cfg, int ki, int kalg, int pub, int rc, void *obj)
+{
+	printf("[\"%s\",%ld,%d,%d,%d,%d,%d,%d,%d,%d]\n", builder ? "T" : "S", idx, prov, route, cfg, ki, kalg, pub, rc,
+	       builder ? jwt_builder_error(obj) : jwt_checker_error(obj));
+	if (builder) jwt_builder_error_clear(obj); else jwt_checker_error_clear(obj);
+}
+static int none_ki(void)
+{
+	for (int i = 0; i < L_keys.n; i++) if (!Z[i].present) return i;
+	vh_harness_fail("history routes need the key 'none' in the zoo");
+	return -1;
+}
+/* returns the cell's setkey rc; e_* describe the configuration in force afterwards */
+static int setkey_history(void *obj, int builder, long idx, int prov, int route, int cfg, int ki, int kalg, int pub,
+			  const jwk_item_t *item, int *e_alg, int *e_key, int *e_ki, int *e_kalg, int *e_pub)
+{
+	int rc, rc2;
+	if (other_ki < 0) vh_harness_fail("history routes need oct:64 in the zoo");
+	*e_alg = JWT_ALG_NONE; *e_key = 0; *e_ki = ki; *e_kalg = kalg; *e_pub = pub;
+	if (route == 7) {
+		const jwk_item_t *o = get_item(prov, other_ki, -1, 0);
+		if (do_setkey(obj, builder, JWT_ALG_HS512, o)) vh_harness_fail("history: HS512 + oct:64 refused");
+		log_setkey(builder, idx, prov, route, JWT_ALG_HS512, other_ki, -1, 0, 0, obj);
+		*e_alg = JWT_ALG_HS512; *e_key = 1; *e_ki = other_ki; *e_kalg = -1; *e_pub = 0;
+	}
+	rc = do_setkey(obj, builder, (jwt_alg_t)cfg, item);
+	log_setkey(builder, idx, prov, route, cfg, ki, kalg, pub, rc, obj);
+	if (!rc) { *e_alg = cfg; *e_key = item != NULL; *e_ki = ki; *e_kalg = kalg; *e_pub = pub; }
+	if (route == 5) {
+		rc2 = do_setkey(obj, builder, JWT_ALG_HS256, NULL);
+		log_setkey(builder, idx, prov, route, JWT_ALG_HS256, none_ki(), -1, 0, rc2, obj);
+		if (!rc2) { *e_alg = JWT_ALG_HS256; *e_key = 0; }
+	} else if (route == 6) {
+		if (idx & 1) {
+			const jwk_item_t *o = get_item(prov, other_ki, JWT_ALG_HS256, 0);
+			rc2 = do_setkey(obj, builder, JWT_ALG_HS384, o);
+			log_setkey(builder, idx, prov, route, JWT_ALG_HS384, other_ki, JWT_ALG_HS256, 0, rc2, obj);
+			if (!rc2) { *e_alg = JWT_ALG_HS384; *e_key = 1; *e_ki = other_ki; *e_kalg = JWT_ALG_HS256; *e_pub = 0; }
+		} else {
+			const jwk_item_t *o = get_item(prov, other_ki, -1, 0);
+			rc2 = do_setkey(obj, builder, JWT_ALG_NONE, o);
+			log_setkey(builder, idx, prov, route, JWT_ALG_NONE, other_ki, -1, 0, rc2, obj);
+			if (!rc2) { *e_alg = JWT_ALG_NONE; *e_key = 1; *e_ki = other_ki; *e_kalg = -1; *e_pub = 0; }
+		}
+	}
+	return rc;
+}
+
 int main(int argc, char **argv)
 {
 	vh_args_t a;
@@ -267,6 +325,7 @@ int main(int argc, char **argv)
 		if (vh_key_gen(&Z[i].k, L_keys.v[i], &rng))
 			vh_harness_fail("keygen %s", L_keys.v[i]);
 		Z[i].present = 1;
+		if (other_ki < 0 && !strcmp(L_keys.v[i], "oct:64")) other_ki = i;
 		if (Z[i].k.kind != VH_K_OCT) {
 			const jwk_item_t *it = get_item(0, i, -1, 1);
 			const char *pem = it ? jwks_item_pem(it) : NULL;
@@ -302,7 +361,7 @@ int main(int argc, char **argv)
 		if (op_v) {
 			jwt_checker_t *chk = jwt_checker_new();
 			cbctx_t cx = { item, cfg, 0, 0, 0, 0 };
-			int setkey_rc = -1, eff_alg = JWT_ALG_NONE, eff_key = 0;
+			int setkey_rc = -1, eff_alg = JWT_ALG_NONE, eff_key = 0, e_ki = ki, e_kalg = kalg, e_pub = pub;
 			if (!chk) vh_harness_fail("checker_new");
 			switch (route) {
 			case 0:
@@ -321,8 +380,11 @@ int main(int argc, char **argv)
 				cx.mode = 0; jwt_checker_setcb(chk, the_cb, &cx);
 				if (!setkey_rc) { eff_alg = cfg; eff_key = item != NULL; }
 				break;
+			case 5: case 6: case 7:
+				setkey_rc = setkey_history(chk, 0, idx, prov, route, cfg, ki, kalg, pub, item, &eff_alg, &eff_key, &e_ki, &e_kalg, &e_pub);
+				break;
 			}
-			printf("[\"S\",%ld,%d,%d,%d,%d,%d,%d,%d,%d]\n", idx, prov, route, cfg, ki, kalg, pub, setkey_rc, jwt_checker_error(chk));
+			if (route < 5) printf("[\"S\",%ld,%d,%d,%d,%d,%d,%d,%d,%d]\n", idx, prov, route, cfg, ki, kalg, pub, setkey_rc, jwt_checker_error(chk));
 			jwt_checker_error_clear(chk);
 			for (int hi = 0; hi < L_hdr.n; hi++)
 			for (int si = 0; si < L_sig.n; si++) {
@@ -332,10 +394,12 @@ int main(int argc, char **argv)
 				if (!tok) continue;
 				vh_hook_drain(dump, 0);
 				cx.calls = 0;
+				if (e_ki != ki)	/* the configuration in force holds another key than the one the token was made for */
+					refvalid = Z[e_ki].present ? vh_ref_token_valid(&Z[e_ki].k, tok, NULL) : 0;
 				rc = jwt_checker_verify(chk, tok);
 				ef = jwt_checker_error(chk);
 				msg = jwt_checker_error_msg(chk);
-				printf("[\"V\",%ld,%d,%d,%d,%d,%d,%d,%d,%d,%d,%d,%d,%d,%d,%d,", idx, prov, route, cfg, ki, kalg, pub,
+				printf("[\"V\",%ld,%d,%d,%d,%d,%d,%d,%d,%d,%d,%d,%d,%d,%d,%d,", idx, prov, route, cfg, e_ki, e_kalg, e_pub,
 				       setkey_rc, eff_alg, eff_key, h, sk, refvalid, rc, ef);
 				put_msg(msg);
 				printf(",%d", cx.calls);
@@ -349,7 +413,7 @@ int main(int argc, char **argv)
 		if (op_g) {
 			jwt_builder_t *b = jwt_builder_new();
 			cbctx_t cx = { item, cfg, 0, 0, 0, 0 };
-			int setkey_rc = -1, eff_alg = JWT_ALG_NONE, eff_key = 0;
+			int setkey_rc = -1, eff_alg = JWT_ALG_NONE, eff_key = 0, e_ki = ki, e_kalg = kalg, e_pub = pub;
 			char *tok;
 			int halg = -2, third_empty = 0, refvalid = 0, shape_ok = 0, ef;
 			vh_hookrec_t dump[4];
@@ -371,15 +435,18 @@ int main(int argc, char **argv)
 				cx.mode = 0; jwt_builder_setcb(b, the_cb, &cx);
 				if (!setkey_rc) { eff_alg = cfg; eff_key = item != NULL; }
 				break;
+			case 5: case 6: case 7:
+				setkey_rc = setkey_history(b, 1, idx, prov, route, cfg, ki, kalg, pub, item, &eff_alg, &eff_key, &e_ki, &e_kalg, &e_pub);
+				break;
 			}
-			printf("[\"T\",%ld,%d,%d,%d,%d,%d,%d,%d,%d]\n", idx, prov, route, cfg, ki, kalg, pub, setkey_rc, jwt_builder_error(b));
+			if (route < 5) printf("[\"T\",%ld,%d,%d,%d,%d,%d,%d,%d,%d]\n", idx, prov, route, cfg, ki, kalg, pub, setkey_rc, jwt_builder_error(b));
 			jwt_builder_error_clear(b);
 			vh_hook_drain(dump, 0);
 			tok = jwt_builder_generate(b);
 			ef = jwt_builder_error(b);
 			if (tok)
-				inspect_token(tok, z->present ? &z->k : NULL, &halg, &third_empty, &refvalid, &shape_ok);
-			printf("[\"G\",%ld,%d,%d,%d,%d,%d,%d,%d,%d,%d,%d,%d,", idx, prov, route, cfg, ki, kalg, pub, setkey_rc, eff_alg, eff_key,
+				inspect_token(tok, Z[e_ki].present ? &Z[e_ki].k : NULL, &halg, &third_empty, &refvalid, &shape_ok);
+			printf("[\"G\",%ld,%d,%d,%d,%d,%d,%d,%d,%d,%d,%d,%d,", idx, prov, route, cfg, e_ki, e_kalg, e_pub, setkey_rc, eff_alg, eff_key,
 			       tok ? 0 : 1, ef);
 			put_msg(jwt_builder_error_msg(b));
 			printf(",%d,%d,%d,%d,%d", halg, third_empty, refvalid, shape_ok, cx.calls);
